@@ -197,5 +197,9 @@ def check(run):
     p13.nat_from_rule(run)
     import p09
     p09.route_algebra_rules(run)
+    p09.channel_route_direction_rule(run)
+    run.clause('a moved socket receives what is addressed to its binding: the move constructor re-points registry and forwarder (shared with C11/C12)')
+    import p12 as _p12
+    _p12.move_repoints_rule(run, ((U, 'udp'),))
     run.floor('R7', 14)
     run.floor('R9', 2)
